@@ -7,7 +7,6 @@
 //! * `sym`   — symbolic strings of concrete length
 #![allow(clippy::all)]
 
-#[cfg(kani)]
 pub mod call;
 pub mod doc;
 pub mod echo;
